@@ -316,8 +316,13 @@ class Inliner:
             return None
         rets = [n for s in body for n in ast.walk(s) if isinstance(n, ast.Return)]
         last_ret = body[-1] if isinstance(body[-1], ast.Return) else None
+        tail_call = False
         if len(rets) > (1 if last_ret is not None else 0):
-            return None            # early returns: not spliceable
+            if not is_ret or forced is not None:
+                return None            # early returns: not spliceable
+            # `return helper(...)`: in tail position every `return e` of the helper is a return of the caller
+            tail_call = True
+            last_ret = None
         if any(isinstance(n, (ast.Yield, ast.YieldFrom, ast.Global, ast.Nonlocal, ast.FunctionDef, ast.ClassDef, ast.Lambda)) for s in body for n in ast.walk(s)):
             return None
         if len(body) == 1 and last_ret is not None:
@@ -328,7 +333,7 @@ class Inliner:
         if '__nva__' in b:
             k_ = b.pop('__nva__').value
             body = [_ExpandStar(callee.node.args.vararg.arg, k_).visit(copy.deepcopy(s_)) for s_ in body]
-            last_ret = body[-1] if isinstance(body[-1], ast.Return) else None
+            last_ret = body[-1] if isinstance(body[-1], ast.Return) and not tail_call else None
         core = body[:-1] if last_ret is not None else body
         rebound = assigned_names(core)
         self.counter += 1
@@ -375,7 +380,7 @@ class Inliner:
             # call used as a statement: value dropped
         elif target is not None:
             out.append(ast.Assign(targets=[copy.deepcopy(target)], value=ast.Constant(value=None)))
-        elif is_ret:
+        elif is_ret and not (tail_call and out and isinstance(out[-1], (ast.Return, ast.Raise))):
             out.append(ast.Return(value=None))
         for s in out:
             ast.copy_location(s, st)
